@@ -10,7 +10,7 @@ HASH_ITER = re.compile(r"^std::collections::(hash_map::|hash_set::)?Hash(Map|Set
 AMBIENT = re.compile(r"^(std::time::|std::env::|std::thread::|std::process::id|std::process::Command|"
                      r"rand::|getrandom::|std::fs::|std::net::|std::hash::RandomState::hash_one|"
                      r"std::collections::hash_map::DefaultHasher|std::ptr::(addr|from_exposed)|"
-                     r"core::ptr::.*::(addr|expose_provenance|align_offset)$)")
+                     r"(std|core)::ptr::.*::(addr|expose_provenance|align_offset)$)")
 ITER_ENTRY = ("std::iter::IntoIterator::into_iter", "std::iter::Extend::extend", "std::iter::FromIterator::from_iter",
               "std::iter::Iterator::collect", "std::clone::Clone::clone")
 
